@@ -3,21 +3,23 @@
 with it; its demonstration fails with it and passes without it), then keep it as /verif/seeded/<Cxx>-<k>/ with
 meta.json recording what it breaks, what it needs to manifest, what was run, and which of our checks report it."""
 import glob, json, os, shutil, subprocess, sys
+RND = os.environ.get("SEED_ROUND", "")
+OUT = "/tmp/seed%s-out" % RND
 ENV = dict(os.environ, GOFLAGS="-mod=mod", GOPROXY="off", GOSUMDB="off", GOTOOLCHAIN="local")
 pid = sys.argv[1]
-ks = sys.argv[2:] or sorted(d for d in os.listdir("/tmp/seed-out/" + pid) if d.isdigit())
-wt = "/tmp/seed-" + pid
+ks = sys.argv[2:] or sorted(d for d in os.listdir(OUT + "/" + pid) if d.isdigit())
+wt = "/tmp/seed%s-%s" % (RND, pid)
 if not os.path.isdir(wt):
     subprocess.run(["git", "-C", "/repo", "worktree", "add", "--detach", wt, "HEAD"], check=True, capture_output=True)
 def clean():
     subprocess.run(["git", "-C", wt, "checkout", "-q", "--", "."], check=True)
     subprocess.run(["git", "-C", wt, "clean", "-fdq"], check=True)
 tried = {}
-for tf in glob.glob("/tmp/seed-out/%s/tryseed-*.json" % pid):
+for tf in glob.glob(OUT + "/%s/tryseed-*.json" % pid):
     for r in json.load(open(tf)):
         tried.setdefault(r["seed"], {}).update({k: v for k, v in r.items() if k.startswith("check_")})
 for k in ks:
-    d = "/tmp/seed-out/%s/%s" % (pid, k)
+    d = OUT + "/%s/%s" % (pid, k)
     patch = os.path.join(d, "patch.diff")
     clean()
     # bring the worktree to /repo's HEAD (fix: commits may have landed since the agent worked)
@@ -50,7 +52,7 @@ for k in ks:
     print("%s/%s confirmed=%s %s checks=%s" % (pid, k, ok, {a: b for a, b in conf.items() if "tail" not in a}, {a: b["verdict"] for a, b in meta["our_checks"].items()}), flush=True)
     if not ok:
         continue
-    out = "/verif/seeded/%s-%s" % (pid, k)
+    out = "/verif/seeded/%s-%s%s" % (pid, ("r%s-" % RND) if RND else "", k)
     shutil.rmtree(out, ignore_errors=True)
     os.makedirs(out)
     for f in os.listdir(d):
